@@ -67,8 +67,8 @@ type Reader struct {
 	SawEOF    bool
 
 	grown    []byte // bytes appended to the stream after it reported EOF once (a file that grows)
-	errv     error // what a fault returns (ErrIO, or ErrTemporary)
-	withData bool  // the sticky fault arrives together with the last bytes before it: (n>0, err)
+	errv     error  // what a fault returns (ErrIO, or ErrTemporary)
+	withData bool   // the sticky fault arrives together with the last bytes before it: (n>0, err)
 }
 
 // drawErrFlavour decides, from the tape, which error value a planned fault
